@@ -136,11 +136,18 @@ func builtinObjectDefineProperties(call FunctionCall) Value {
 	}
 
 	properties := call.runtime.toObject(call.Argument(1))
+	// Convert every descriptor before defining the first property, so that an
+	// invalid descriptor leaves the object untouched (15.2.3.7 steps 5 and 6).
+	var names []string
+	var descriptors []property
 	properties.enumerate(false, func(name string) bool {
-		descriptor := toPropertyDescriptor(call.runtime, properties.get(name))
-		obj.defineOwnProperty(name, descriptor, true)
+		names = append(names, name)
+		descriptors = append(descriptors, toPropertyDescriptor(call.runtime, properties.get(name)))
 		return true
 	})
+	for index, name := range names {
+		obj.defineOwnProperty(name, descriptors[index], true)
+	}
 
 	return val
 }
